@@ -636,6 +636,56 @@ func genData(emit emitFn) {
 	}
 }
 
+// ---------- family D2: sections reused by several CPs ----------
+// Two or three CPs run the SAME code section, each with its own data section (the same symbol names, different
+// bytes and lengths), or the same data section under different code sections.
+func genSharedSections(emit emitFn) {
+	code := []string{"entry st", "st:", "mov r0, rom:v1", "r2o r0, o0", "mov r1, rom:v2", "r2o r1, o1", "hl:", "j hl"}
+	code2 := []string{"entry st", "st:", "nop", "mov r0, rom:v2", "r2o r0, o0", "mov r1, rom:v1", "r2o r1, o1", "hl:", "j hl"}
+	datas := [][]string{
+		{"v1 db 0x11", "v2 db 0x12"},
+		{"v1 db 0x21, 0x22", "v2 db 0x23"},
+		{"v0 db 0x30", "v1 db 0x31", "v2 db 0x32, 0x33"},
+	}
+	io := func(cp string, base int) []string {
+		return []string{
+			fmt.Sprintf("ioatt l%sa cp: %s, index:0, type:output", cp, cp), fmt.Sprintf("ioatt l%sa cp: bm, index:%d, type:output", cp, base),
+			fmt.Sprintf("ioatt l%sb cp: %s, index:1, type:output", cp, cp), fmt.Sprintf("ioatt l%sb cp: bm, index:%d, type:output", cp, base+1),
+		}
+	}
+	for ncp := 2; ncp <= 3; ncp++ {
+		for _, order := range []int{0, 1} {
+			// same code, own data
+			secs := []secText{{"prog", ".romtext", "async", code}}
+			var metas []string
+			for c := 0; c < ncp; c++ {
+				d := c
+				if order == 1 {
+					d = ncp - 1 - c
+				}
+				secs = append(secs, secText{fmt.Sprintf("dat%d", d), ".romdata", "", datas[d]})
+			}
+			for c := 0; c < ncp; c++ {
+				metas = append(metas, fmt.Sprintf("cpdef p%d romcode: prog, romdata: dat%d, ramsize:8", c, c))
+				metas = append(metas, io(fmt.Sprintf("p%d", c), 2*c)...)
+			}
+			emit(renderSource("", nil, false, secs, metas, 8), fmt.Sprintf("shared|same-code-own-data|cps%d|data-order%d", ncp, order))
+		}
+	}
+	// same data, own code
+	secs := []secText{{"proga", ".romtext", "async", code}, {"progb", ".romtext", "async", code2}, {"dat", ".romdata", "", datas[1]}}
+	metas := []string{"cpdef p0 romcode: proga, romdata: dat, ramsize:8", "cpdef p1 romcode: progb, romdata: dat, ramsize:8"}
+	metas = append(metas, io("p0", 0)...)
+	metas = append(metas, io("p1", 2)...)
+	emit(renderSource("", nil, false, secs, metas, 8), "shared|own-code-same-data|cps2")
+	// same code and same data
+	secs = []secText{{"prog", ".romtext", "async", code}, {"dat", ".romdata", "", datas[2]}}
+	metas = []string{"cpdef p0 romcode: prog, romdata: dat, ramsize:8", "cpdef p1 romcode: prog, romdata: dat, ramsize:8"}
+	metas = append(metas, io("p0", 0)...)
+	metas = append(metas, io("p1", 2)...)
+	emit(renderSource("", nil, false, secs, metas, 8), "shared|same-code-same-data|cps2")
+}
+
 // ---------- family E: two CPs wired by ioatt ----------
 func genTwoCP(emit emitFn, thorough bool) {
 	producers := [][]string{
@@ -831,6 +881,8 @@ func GenerateAll(thorough bool, emit emitFn) map[string]any {
 	genLiterals(emit)
 	genMacros(emit, thorough)
 	genData(emit)
+	genSharedSections(emit)
+	bounds["shared_sections"] = "2-3 CPs running the same code section with their own data sections (same symbol names, different bytes and lengths; both declaration orders), own code with the same data section, same code and same data"
 	genTwoCP(emit, thorough)
 	genSyncTwoCP(emit)
 	genIOModePrecedence(emit)
